@@ -66,11 +66,15 @@ pub trait PairEst: Clone + std::fmt::Debug + Default {
     fn extend_ref(&mut self, v: &[(f64, f64)]);
     fn from_iter_lazy(v: &[(f64, f64)]) -> Self;
     fn extend_lazy(&mut self, v: &[(f64, f64)]);
+    fn roundtrip_json(&self) -> Option<Self>;
+    fn roundtrip_bin(&self) -> Option<Self>;
 }
 fn acc(op: &str, stat: &'static str, val: Val) -> Acc { Acc { op: op.to_string(), stat, val } }
 
 macro_rules! pair_ingest {
     () => {
+        fn roundtrip_json(&self) -> Option<Self> { serde_json::to_string(self).ok().and_then(|js| serde_json::from_str(&js).ok()) }
+        fn roundtrip_bin(&self) -> Option<Self> { crate::binfmt::to_bytes(self).ok().and_then(|b| crate::binfmt::from_bytes(&b).ok()) }
         fn from_iter_val(v: &[(f64, f64)]) -> Self { v.iter().cloned().collect() }
         fn from_iter_ref(v: &[(f64, f64)]) -> Self { v.iter().collect() }
         fn extend_val(&mut self, v: &[(f64, f64)]) { self.extend(v.iter().cloned()) }
@@ -98,7 +102,7 @@ impl PairEst for WeightedMeanWithError {
     fn accessors(&self) -> Vec<Acc> {
         vec![acc("weighted_mean", "wmean", Val::F(self.weighted_mean())), acc("sum_weights", "sum_w", Val::F(self.sum_weights())),
              acc("sum_weights_sq", "sum_w_sq", Val::F(self.sum_weights_sq())), acc("effective_len", "eff_len", Val::F(self.effective_len())),
-             acc("unweighted_mean", "umean", Val::F(self.unweighted_mean())), acc("len", "len", Val::I(self.len() as i64)),
+             acc("unweighted_mean", "umean", Val::F(self.unweighted_mean())), acc("len", "len", Val::I(self.len() as i128)),
              acc("is_empty", "", Val::B(self.is_empty())),
              acc("population_variance", "popvar", Val::F(self.population_variance())),
              acc("sample_variance", "samplevar", Val::F(self.sample_variance())),
@@ -113,7 +117,7 @@ impl PairEst for Covariance {
     fn add(&mut self, a: f64, b: f64) { Covariance::add(self, a, b) }
     fn merge(&mut self, o: &Self) { Merge::merge(self, o) }
     fn accessors(&self) -> Vec<Acc> {
-        vec![acc("len", "len", Val::I(self.len() as i64)), acc("is_empty", "", Val::B(self.is_empty())),
+        vec![acc("len", "len", Val::I(self.len() as i128)), acc("is_empty", "", Val::B(self.is_empty())),
              acc("mean_x", "mean_x", Val::F(self.mean_x())), acc("mean_y", "mean_y", Val::F(self.mean_y())),
              acc("population_variance_x", "popvar_x", Val::F(self.population_variance_x())),
              acc("population_variance_y", "popvar_y", Val::F(self.population_variance_y())),
@@ -133,8 +137,13 @@ pub fn pfeed_any<E: PairEst>(out: &mut Out, e: &mut E, xs: &[(f64, f64)], rng: &
     let h = if n > 1 { rng.below(n) } else { 0 };
     let ident = |out: &mut Out, e: &mut E, which: usize| {
         let before = words(e);
-        let copy = if which % 2 == 0 { e.clone() } else { let mut t = E::default(); t.add(1.5, 2.0); t.clone_from(e); t };
-        out.x(words(&copy) == before, || format!("{}: clone / clone_from changed the state: {} -> {}", E::NAME, before, words(&copy)));
+        let copy = match which % 4 {
+            0 => e.clone(),
+            1 => { let mut t = E::default(); t.add(1.5, 2.0); t.clone_from(e); t }
+            2 => e.roundtrip_json().unwrap_or_else(|| e.clone()),
+            _ => match e.roundtrip_bin() { Some(r) => r, None => { out.x(false, || format!("{}: state {} does not survive a round trip through a positional binary serde format", E::NAME, before)); e.clone() } },
+        };
+        out.x(words(&copy) == before, || format!("{}: clone / clone_from / serde round trip (route {}) changed the state: {} -> {}", E::NAME, which % 4, before, words(&copy)));
         *e = copy;
     };
     match route {
@@ -221,6 +230,8 @@ pub fn weights(rng: &mut Rng, n: usize, zero_pattern: usize) -> Vec<f64> {
         9 => { for (i, x) in w.iter_mut().enumerate() { if i < (n + 1) / 2 { *x *= 1e-20; } } }                    // a tiny-weight prefix
         _ => {}
     }
+    // a zero weight may carry either sign
+    for x in w.iter_mut() { if *x == 0.0 && rng.unit() < 0.4 { *x = -0.0; } }
     if n > 0 && w.iter().all(|x| *x == 0.0) { let l = w.len(); w[l - 1] = 1.0; }
     w
 }
@@ -327,12 +338,14 @@ pub fn phuge_counts<E: PairEst>(out: &mut Out, data: &[(f64, f64)], extra: &[(f6
     let base = e.accessors();
     let get = |accs: &[Acc], stat: &str| accs.iter().find(|a| a.stat == stat).map(|a| a.val.f());
     let n0 = data.len() as f64;
-    let close = |a: f64, b: f64, tol: f64| (a - b).abs() <= tol * (1.0 + a.abs().max(b.abs()));
+    let close = |a: f64, b: f64, tol: f64| a.is_finite() == b.is_finite() && ((a - b).abs() <= tol * (1.0 + a.abs().max(b.abs())) || a == b);
     let mut e2 = small.clone();
     let mut union = E::new(); for (a, b) in data.iter().chain(extra.iter()) { union.add(*a, *b) }
     let ubase = union.accessors();
     let mut reps = 1f64;
-    for round in 0..56 {
+    // doublings up to a count of 2^62 (so that the merge of the two huge chunks below stays within u64)
+    let rounds = 62 - (64 - (data.len().max(extra.len()) as u64 - 1).leading_zeros() as usize).min(8);
+    for round in 0..rounds {
         let c = e.clone();
         let pa = words(&e);
         e.merge(&c);
@@ -379,8 +392,8 @@ pub fn phuge_counts<E: PairEst>(out: &mut Out, data: &[(f64, f64)], extra: &[(f6
             let len_of = |x: &E| x.accessors().iter().find(|a| a.stat == "len").map(|a| a.val.word());
             if let (Some(_), Some(ls)) = (len_of(&e), len_of(&small)) {
                 let ls: f64 = ls[1..].parse().unwrap_or(0.0);
-                let want = |k: f64| Some(iw((nn + k) as i64));
-                if nn < 9e15 { out.x(len_of(&g) == want(ls) && len_of(&h) == want(ls) && len_of(&f) == want(1.0), || format!("{}: lengths do not add at count {}: {:?} {:?} {:?}", E::NAME, nn, len_of(&g), len_of(&h), len_of(&f))); }
+                let want = |k: f64| Some(iw(nn as u64 as i128 + k as i128));
+                if nn < 4e18 { out.x(len_of(&g) == want(ls) && len_of(&h) == want(ls) && len_of(&f) == want(1.0), || format!("{}: lengths do not add at count {}: {:?} {:?} {:?}", E::NAME, nn, len_of(&g), len_of(&h), len_of(&f))); }
             }
             let mut z = e.clone(); z.merge(&E::new());
             out.x(words(&z) == words(&e), || format!("{}: merging the empty estimator at count {} changed the state", E::NAME, nn));
@@ -477,6 +490,17 @@ pub fn c09(out: &mut Out, tier: &str, rng: &mut Rng) {
         }
     }
     for (d, x) in PHUGE_BASES { phuge_counts::<Covariance>(out, d, x); }
+    // x and y on very different scales (the product of the two sums of squares stays representable, their ratio does not)
+    for &(sx, sy) in &[(1e-80, 1e80), (1e100, 1e-100), (1e-70, 1e-70), (1e70, 1e70), (1e-140, 1.0), (1.0, 1e140)] {
+        for &rho in &[-1.0, -0.6, 0.3, 0.9, 1.0] {
+            let n = 3 + rng.below(40);
+            let d: Vec<(f64, f64)> = (0..n).map(|_| { let a = rng.normal(); let b = rng.normal(); let y: f64 = if (rho as f64).abs() == 1.0 { rho * a } else { rho * a + (1.0 - rho * rho as f64).sqrt() * b }; (a * sx, y * sy) }).collect();
+            cov_case(out, &PTree::Leaf(d.clone()), Trace::None, rng);
+            let k = 1 + rng.below(4);
+            let t = random_ptree(rng, &d, k, 3);
+            cov_case(out, &t, Trace::None, rng);
+        }
+    }
     let plan: Vec<(usize, usize)> = if tier == "thorough" { vec![(100, 40), (1000, 20), (10_000, 6)] } else { vec![(100, 10), (1000, 5), (10_000, 1)] };
     for (n, count) in plan {
         for c in 0..count {
@@ -530,6 +554,8 @@ fn minmax_tree<E: Est>(out: &mut Out, t: &Tree, rng: &mut Rng, kind: &str) {
     if !out.next_case() { return; }
     let mut k = out.case as usize;
     let e: E = if out.case % 2 == 0 { eval_tree(out, t, Trace::All, rng) } else { eval_tree_mixed(out, t, &mut k, rng) };
+    let mut e = e;
+    identity_op(out, &mut e, out.case as usize / 2);
     let accs = observe(out, &e);
     let data = t.flatten();
     out.o(kind, &[&fws(&data), &fw(accs[0].val.f())]);
